@@ -39,6 +39,7 @@ type Exec struct {
 	obls       []*Obligation
 	compSorts  map[string]Sort
 	heap0      *Heap
+	epochN     int
 	alloc0     *Term
 	closureIDs map[*SV]*Term
 	closureOf  map[string]*SV
@@ -1360,6 +1361,13 @@ func (x *Exec) enterLoopHead(fr *Frame, st *State, b, prev *ssa.BasicBlock, lp *
 			fr.loopVar[b] = x.evalClauseInt(spec.Decreases, envf(), st)
 		}
 	}
+	if fr.depth == 0 && lp.ordinal == 0 {
+		fr.iterHeap = st.heap.clone()
+		fr.iterCells = make(map[*ssa.Alloc]*Term, len(fr.cells))
+		for k, v := range fr.cells {
+			fr.iterCells[k] = v
+		}
+	}
 	// a loop head entered afresh may be visited again by an outer loop iteration: reset counter
 	return true
 }
@@ -1521,6 +1529,8 @@ func (x *Exec) havocAllHeap(st *State) {
 		st.heap.comps[c] = x.w.Fresh("hv."+c, x.compSorts[c])
 		x.writes[c] = true
 	}
+	x.epochN++
+	st.heap.epoch = fmt.Sprintf("e%d", x.epochN)
 	na := x.w.Fresh("alloc", SInt)
 	st.assume(App("<=", SBool, st.heap.alloc, na))
 	st.heap.alloc = na
